@@ -24,7 +24,7 @@ import (
 
 const (
 	tiePipe     = "forwarder-pipeline"
-	tiePipeRule = "K4-style: one real subscription (Value.Pull / Collection.Pull / Collection.PullID; backpressure on/off; updates-only on/off) driven by random macro moves {write (Set / Update or Delete of the watched item, of the writer's own item or of an item an earlier writer touched, incl. re-adding a deleted item; each in its own goroutine; the harness tells the model the change type ADD/UPDATE/REMOVE from its own bookkeeping of which items exist and only issues writes whose outcome is determined), one consumer receive, cancel}, plus burst scenarios (every write before the first receive, so that forwarder and excess stage fill up: mergeChanges incl. ADD+REMOVE annihilation and REMOVE+ADD = REPLACE); after every move the harness waits until every goroutine inside pkg/resource + internal/minibus and every writer is blocked (wait reason from runtime.Stack) and reports G = number of live goroutines of the subscription (counted by package path, not by name), per writer done/blocked, the tags the consumer received (a Collection.Pull consumer also the change types a/u/r/p), receive pending, close seen; the composed Lean model (bus + excess stage + forwarder + PullID stage, free-running: all interleavings and select choices) must reach a quiescent configuration with exactly this observation. one evaluation = one scenario; non-trivial = it contains a cancel or a Delete with at least one write; distinct = distinct (shape, op sequence)"
+	tiePipeRule = "K4-style: one real subscription (Value.Pull / Collection.Pull / Collection.PullID; backpressure on/off; updates-only on/off) driven by random macro moves {write (Set / Update or Delete of the watched item, of the writer's own item or of an item an earlier writer touched, incl. re-adding a deleted item; each in its own goroutine; the harness tells the model the change type ADD/UPDATE/REMOVE from its own bookkeeping of which items exist and only issues writes whose outcome is determined), one consumer receive, cancel}, plus burst scenarios (every write before the first receive, so that forwarder and excess stage fill up: mergeChanges incl. ADD+REMOVE annihilation and REMOVE+ADD = REPLACE) and churn bursts (no backpressure: 0-3 updates of the watched item that park in the stages, then 3-5 writes that delete the item when it exists and re-add it when it does not: REPLACE+REMOVE = REMOVE, REMOVE+ADD+REMOVE ...); after every move the harness waits until every goroutine inside pkg/resource + internal/minibus and every writer is blocked (wait reason from runtime.Stack) and reports G = number of live goroutines of the subscription (counted by package path, not by name), per writer done/blocked, the tags the consumer received (a Collection.Pull consumer also the change types a/u/r/p), receive pending, close seen; the composed Lean model (bus + excess stage + forwarder + PullID stage, free-running: all interleavings and select choices) must reach a quiescent configuration with exactly this observation. one evaluation = one scenario; non-trivial = it contains a cancel or a Delete with at least one write; distinct = distinct (shape, op sequence)"
 )
 
 type PipeCase struct {
